@@ -125,6 +125,7 @@ LAYOUTS = {   # concrete coordinates (y, x) for nodes 1..3; the query point and 
     'diag': {1: (0.5, -1.0), 2: (2.0, 3.0), 3: (-1.0, 1.0)},
     'zero': {1: (1.0, 1.0), 2: (1.0, 1.0), 3: (1.0, 2.0)},
     'fan3': {1: (0.0, 0.0), 2: (5.0, 5.0), 3: (0.0, 1.0), 4: (1.0, 1.0)},
+    'star3': {1: (0.0, 0.0), 2: (0.0, 4.0), 3: (3.0, -2.0), 4: (-3.0, -2.0)},     # three edges in three directions: every distance order occurs
     'tiny': {1: (50.87, 4.7), 2: (50.87, 4.70008), 3: (50.87003, 4.7)},
     'metres1e7': {1: (5650000.3, 10000000.7), 2: (5650080.4, 10000060.2), 3: (5650000.6, 10000100.9)},
 }
@@ -374,7 +375,7 @@ def instances(tier):
     out = [('n1', None, None), ('n2', None, None), ('n2', 1, None)]
     for lay in LAYOUTS:
         out += [('e1', None, lay), ('e2_bidir', None, lay)]
-    out += [('e2_fan', None, 'unit'), ('e2_fan', 1, 'unit'), ('e3_fan', 2, 'fan3', 'inmem+topk'), ('e3_fan', 2, 'fan3', 'inmem+topk1d'), ('e3_fan', 2, 'fan3', 'sqlite+topk1d'), ('e3_fan', 1, 'long', 'inmem+topk'), ('n3', 2, 'unit', 'inmem+topk'), ('e1_selfloop', None, 'long'), ('e2_fan', 1, 'metres1e7')]
+    out += [('e2_fan', None, 'unit'), ('e2_fan', 1, 'unit'), ('e3_fan', 2, 'fan3', 'inmem+topk'), ('e3_fan', 2, 'star3', 'inmem+topk'), ('e3_fan', 2, 'fan3', 'inmem+topk1d'), ('e3_fan', 2, 'fan3', 'sqlite+topk1d'), ('e3_fan', 1, 'long', 'inmem+topk'), ('n3', 2, 'unit', 'inmem+topk'), ('e1_selfloop', None, 'long'), ('e2_fan', 1, 'metres1e7')]
     out += [('n1', None, None, 'sqlite'), ('n2', None, None, 'sqlite'), ('n2', 1, 'metres1e7', 'sqlite'), ('n2', None, 'metres1e7', 'sqlite'), ('n3', None, 'unit', 'sqlite'), ('e1', None, 'unit', 'sqlite'),
             ('e1', None, 'long', 'sqlite'), ('e2_bidir', None, 'metres1e7', 'sqlite'), ('e2_fan', None, 'diag', 'sqlite')]
     if tier == 'thorough':
